@@ -67,3 +67,58 @@ def arg_sets(tier):
             if k <= 2 or tier != "quick":
                 out.append({"edges": edges, "locked_colors": {(combo[0][0], combo[0][2]): "green"}})
     return out
+
+
+# =================================================================================================
+# ConnectionPlanner._compute_network_ids: relay isolation key.  Two edges get the same (positive) network id exactly when
+# they have the same SOURCE ENTITY and the same wire colour — independent of the source's prototype, the sink or the signal —
+# so two producers never share a relay network.  Evaluated on the real method (object built without its constructor) over an
+# enumerated box of edge sets and colour maps: bounded.
+# =================================================================================================
+QN = "dsl_compiler/src/layout/connection_planner.py::ConnectionPlanner._compute_network_ids"
+
+
+def _ids_post(a, res):
+    me = a.self
+    edges = [e for e in a.edges if e.source_entity_id]
+    def key(e):
+        return (e.source_entity_id, e.sink_entity_id, e.resolved_signal_name)
+    ids = me._edge_network_ids
+    if any(key(e) not in ids or not (isinstance(ids[key(e)], int) and ids[key(e)] > 0) for e in edges):
+        return False
+    for e1 in edges:
+        for e2 in edges:
+            same_class = e1.source_entity_id == e2.source_entity_id and me._edge_color_map.get(key(e1), "red") == me._edge_color_map.get(key(e2), "red")
+            if (ids[key(e1)] == ids[key(e2)]) != same_class:
+                return False
+    return True
+
+
+network_ids = Contract(qualname=QN, params={"self": ty.TOpaque("planner"), "edges": ty.TOpaque("edges")},
+                       ensures=[("same network id iff same source entity and same colour; ids positive", _ids_post)],
+                       verify=False, properties=("C12", "C08"), note="evaluated on the real method over an enumerated box (bounded stand-in)")
+CONTRACTS.append(network_ids)
+
+
+def network_arg_sets(tier):
+    from dsl_compiler.src.layout.connection_planner import ConnectionPlanner
+    from dsl_compiler.src.layout.wire_router import CircuitEdge
+
+    class _Diag:
+        def info(self, *a, **k):
+            pass
+        warning = error = info
+    srcs = (("A", "constant-combinator"), ("B", "constant-combinator"), ("C", "arithmetic-combinator"))
+    universe = [(s, t, k, g) for (s, t) in srcs for k in ("X", "Y") for g in ("s", "t")]
+    out = []
+    kmax = 3 if tier == "quick" else 4
+    for k in range(1, kmax + 1):
+        for combo in itertools.combinations(universe, k):
+            edges = [CircuitEdge(logical_signal_id=g, resolved_signal_name=g, source_entity_id=s, sink_entity_id=kk, source_entity_type=t) for (s, t, kk, g) in combo]
+            for colouring in ("all-red", "first-green"):
+                p = object.__new__(ConnectionPlanner)
+                p.diagnostics = _Diag()
+                p._edge_network_ids = {}
+                p._edge_color_map = {} if colouring == "all-red" else {(combo[0][0], combo[0][2], combo[0][3]): "green"}
+                out.append({"self": p, "edges": edges})
+    return out
